@@ -794,12 +794,10 @@ class HistoryRunner:
                 self.real.put(name, val[0] if idx else val, indices=idx, accumulate=bool(self.rng.integers(0, 2)))
         except LeaspyInputError:
             self.c("refused_assignments")
-        except Exception as e:
-            if name == "__no_such_variable__" or isinstance(e, (KeyError,)):
-                self.c("refused_assignments")
-            else:
-                self.viol("state/non-settable-assignment-wrong-exception", f"assignment form {form} of non-settable '{name}' raised {e!r} instead of an input error", self.log)
-                return
+        except Exception:
+            # refused with another exception type: the statement only asks that nothing stale can be read afterwards (checked below)
+            self.c("refused_assignments")
+            self.c("refused_assignments_with_another_exception_type")
         else:
             self.viol("state/non-settable-assignment-accepted", f"assignment form {form} (0 item, 1 put, 2 accumulating put, 3 indexed put) of non-settable '{name}' was accepted", self.log)
             return
